@@ -275,7 +275,7 @@ def _run(ck, m):
 
 
 
-def single_primary(ck, m):
+def single_primary(ck, m, rule='C14.e'):
     """C14.e — the forwarder sends to every member whose role is Primary (C14.c), so "at most one forward" needs "at most one
     Primary member": sites that can store Primary must demote the others."""
     from props.C07 import role_of_root, natural_loops
@@ -333,9 +333,9 @@ def single_primary(ck, m):
                     for sbi, names in st:
                         if names == {'Secoundary'} and b.dominates(tt, sbi) and not b.dominates(ft, sbi) and any(sbi in body for h, body in loops):
                             demote = True
-        ck.ob('C14.e', short(b.id), 'primary-store-demotes-others', demote,
+        ck.ob(rule, short(b.id), 'primary-store-demotes-others', demote,
               'storing a Primary member first rewrites every existing member as Secondary' if demote else
               '%s can give a member the Primary role (%s) without demoting the member that held it: the member table then has two Primary '
               'entries and the forwarder sends every client write of a secondary to both' % (short(b.id), [sorted(x) for _, x in may_primary]),
               b.loc(may_primary[0][0]))
-    ck.floor('C14.e', n, 1, 'functions that can store a Primary member')
+    ck.floor(rule, n, 1, 'functions that can store a Primary member')
